@@ -4,7 +4,7 @@ from hypothesis import strategies as st
 
 from .. import gen
 from ..core import SubCheck, Violation
-from ..oracle import LAZY_CHOICES, lib, np_rows, lazy_ra, expect_unchanged, expect_array, jsonable, arrays_equal
+from ..oracle import LAZY_CHOICES, lib, lib_twice, np_rows, lazy_ra, expect_unchanged, expect_array, jsonable, arrays_equal
 from .c05 import close
 
 RULE = ("Cases = ragged arrays with at least one non-empty row (empty rows anywhere, very uneven row lengths 0/1/long), "
@@ -40,7 +40,7 @@ def body_sum(case, ctx):
             exp = np.array([sum(bool(x) for x in c) for c in cols], dtype=np.float64)
         else:
             exp = np.array([np.sum(np.array(c, dtype=np.float64)) for c in cols], dtype=np.float64)
-        got = lib(lambda: ra.sum(axis=0) if case["spell"] == "method" else np.sum(ra, axis=0))
+        got = lib_twice(lambda: ra.sum(axis=0) if case["spell"] == "method" else np.sum(ra, axis=0))
     if not got.ok:
         raise Violation("colsum:unexpected-refusal", got=got.brief())
     v = np.asarray(got.value)
@@ -59,7 +59,7 @@ def body_sum_large(case, ctx):
     a, rows, ra = common(case, ctx, "spell:" + case["spell"])
     cols = columns([[int(v) for v in r] for r in rows])
     with np.errstate(all="ignore"):
-        got = lib(lambda: ra.sum(axis=0) if case["spell"] == "method" else np.sum(ra, axis=0))
+        got = lib_twice(lambda: ra.sum(axis=0) if case["spell"] == "method" else np.sum(ra, axis=0))
     if not got.ok:
         raise Violation("colsum-large:unexpected-refusal", got=got.brief())
     v = np.asarray(got.value)
@@ -97,7 +97,7 @@ def large_case(draw, tier):
 def body_counts(case, ctx):
     a, rows, ra = common(case, ctx)
     exp = np.array([len(c) for c in columns(rows)])
-    got = lib(lambda: ra.col_counts())
+    got = lib_twice(lambda: ra.col_counts())
     expect_array(got, exp, "col_counts", check_dtype=False)
     expect_unchanged(ra, rows, a["dt"], "col_counts-operand")
 
@@ -108,7 +108,7 @@ def body_mean(case, ctx):
     res_dt = a["dt"] if a["dt"].startswith("float") else "float64"
     with np.errstate(all="ignore"):
         exp = np.array([np.sum(np.array(c, dtype=np.float64)) / len(c) for c in cols]).astype(res_dt)
-        got = lib(lambda: ra.mean(axis=0) if case["spell"] == "method" else np.mean(ra, axis=0))
+        got = lib_twice(lambda: ra.mean(axis=0) if case["spell"] == "method" else np.mean(ra, axis=0))
     if not got.ok:
         raise Violation("colmean:unexpected-refusal", got=got.brief())
     v = np.asarray(got.value)
@@ -124,7 +124,7 @@ def body_mean_wide(case, ctx):
     with np.errstate(all="ignore"):
         exp64 = np.array([np.sum(np.array(c, dtype=np.float64)) / len(c) for c in cols])
         exp = exp64.astype(a["dt"])
-        got = lib(lambda: ra.mean(axis=0) if case["spell"] == "method" else np.mean(ra, axis=0))
+        got = lib_twice(lambda: ra.mean(axis=0) if case["spell"] == "method" else np.mean(ra, axis=0))
     if not got.ok:
         raise Violation("colmean-wide:unexpected-refusal", got=got.brief())
     v = np.asarray(got.value)
@@ -155,7 +155,7 @@ def body_colvalues(case, ctx):
     cols = columns(rows)
     j = case["j"] % len(cols)
     ctx.label("last-column" if j == len(cols) - 1 else "inner-column")
-    got = lib(lambda: ra.get_column_values(j))
+    got = lib_twice(lambda: ra.get_column_values(j))
     expect_array(got, np.array(cols[j], dtype=a["dt"]), "get_column_values", j=j)
     expect_unchanged(ra, rows, a["dt"], "get_column_values-operand")
 
